@@ -542,15 +542,17 @@ def _run_resilient(cmd, lines, timeout, env=None):
     out = []
     rest = list(lines)
     guard = 0
-    while rest and guard < 200:
+    ntimeouts = 0
+    while rest and guard < 200 and ntimeouts < 2:
         guard += 1
         try:
             p = subprocess.run(cmd, input="\n".join(rest) + "\n", capture_output=True, text=True, timeout=timeout, env=env)
             rc, so, se = p.returncode, p.stdout, p.stderr
         except subprocess.TimeoutExpired as e:
             rc = "timeout"
+            ntimeouts += 1
             so = e.stdout.decode() if isinstance(e.stdout, bytes) else (e.stdout or "")
-            se = "TIMEOUT after %ss" % timeout
+            se = "TIMEOUT after %ss (the process did not finish this case: non-termination or far too slow)" % timeout
         got = so.split("\n")
         if got and got[-1] == "":
             got = got[:-1]
@@ -564,7 +566,7 @@ def _run_resilient(cmd, lines, timeout, env=None):
             out += got
             out.append(_summarise_death(rc, se))
             rest = rest[len(got) + 1:]
-    out += ["DIED too many crashes"] * len(rest)
+    out += ["SKIPPED (after repeated crashes / timeouts in this chunk)"] * len(rest)
     return out
 
 
